@@ -89,6 +89,8 @@ structure DState where
   /-- indexes on which a build failed in the open transaction: what they hold is undefined until the
       transaction is aborted (the crate's contract), or the index is cleared or prepared for another metric -/
   junk : List Nat := []
+  /-- this case runs a build in a map that may be too small for it (`faults --part mapsweep`) -/
+  mapSweep : Bool := false
   /-- stores before the last build (for the loose post-build check) -/
   preBuild : Option (Store × Nat × BuildOpts) := none
   past : List PastAnswer := []
@@ -810,6 +812,9 @@ def handleOp (d : DState) (p : Pending) (res : List String) : DState := Id.run d
     let _ := ok
     -- the database running out of space can strike at any write: the model cannot predict where; the
     -- transaction must then be aborted (the next dump is compared with the committed state)
+    if d.mapSweep && !implOk && res.take 2 != ["err", "mapfull"] then
+      d := d.prop "C10" s!"a build in a map too small for it (it succeeds in a larger one) answered [{implStr}] instead of MDB_MAP_FULL"
+      return { d with resync := true, preBuild := none, nCancelled := d.nCancelled + 1 }
     if res.take 2 == ["err", "mapfull"] then
       return { d with resync := true, preBuild := none, nCancelled := d.nCancelled + 1 }
     let some (normals, rands, batches) := splitEventsFor c.metric p.evs.toList | return d.diff "unparsable events" "" ""
@@ -1131,7 +1136,7 @@ def step (d : DState) (line : String) : DState :=
   | ["enddump"] => handleDump d
   | "case" :: n :: _ =>
     { d with caseId := (parseNat? n).getD 0, step := 0, committed := [], txn := none, infos := [], pending := none,
-             resync := false, preBuild := none, past := [], refs := [], caseFailures := 0, expectRecovered := false, junk := [],
+             resync := false, preBuild := none, past := [], refs := [], caseFailures := 0, expectRecovered := false, junk := [], mapSweep := false,
              caseBuilds := 0, caseSplits := 0, caseQueries := 0, rawPending := #[], oldLayout := none, spec := [], specAtBegin := [],
              fresh := [], freshAtBegin := [], specOff := false,
              expectAfterUpgrade := none, inExpect := false, versions := #[[]], snapshots := [], inSnapshot := none, committing := false }
@@ -1170,6 +1175,7 @@ def step (d : DState) (line : String) : DState :=
     | _, _, _ => d.diff "unparsable fdcheck record" "" line
   | "fixture-mismatch" :: rest => d.prop "C16" s!"a recorded answer of the golden database changed: {" ".intercalate rest}"
   | ["note", "committing"] => { d with committing := true }
+  | "note" :: "faults" :: "mapsweep" :: _ => { d with mapSweep := true }
   | "note" :: _ => d
   | ["expect-recovered"] => { d with expectRecovered := true }
   | "ev" :: _ =>
